@@ -355,7 +355,12 @@ func Run(r *mc.Run) {
 			uni = append(uni, fmt.Sprintf(t, c))
 		}
 	}
-	r.Scenario("unicode-space-characters", map[string]interface{}{"characters": "FF VT NBSP NEL EM-SPACE IDEOGRAPHIC-SPACE ZWSP BOM", "texts": len(uni)}, 1, func(_ int, st *mc.Stats) bool {
+	// substvars next to what would be a restriction of a package, and with white space inside the braces
+	for _, t := range []string{"${x} (>= 3.9)", "${x}(>= 1)", "${x} [linux-any]", "${x} <!p>", "${x} (>= 1) [amd64] <p>", "a | ${x} [linux-any]", "a | ${x} (>= 1), b", "${x} | b (>= 1)",
+		"${ x }", "${ x}", "${x }", "${x\n}", "${\tx:y\t}", "${x y}", "${ }", "${}", "a (= ${ v })", "a (= ${v}) [amd64]", "${x}, ${ y }, b", "${x}:any", "${x} | ${y} <p>"} {
+		uni = append(uni, t)
+	}
+	r.Scenario("unicode-space-characters", map[string]interface{}{"characters": "FF VT NBSP NEL EM-SPACE IDEOGRAPHIC-SPACE ZWSP BOM", "also": "substvars followed by restrictions / with white space inside the braces", "texts": len(uni)}, 1, func(_ int, st *mc.Stats) bool {
 		for _, t := range uni {
 			st.Evals++
 			vs, acc := checkFix("unicode-space-characters", In{t})
